@@ -99,6 +99,32 @@ func c13hRun() (res c13hResult) {
 				res.Err = fmt.Sprintf("POST failed: %d %s %s", code, body, pn)
 				return
 			}
+			// a second document, as another hub would send it: it binds a prefix shaped like this hub's own (ns2) to a
+			// namespace of its own; compact and expand must still return the URI the document denotes
+			if si%40 == 0 && !pub { // (a dataset with public namespaces serves only those in its context)
+				foreign := fmt.Sprintf("http://c13h/%d/other-hub/", w.n)
+				doc2 := fmt.Sprintf(`[{"id":"@context","namespaces":{"ns2":"%s"}},{"id":"ns2:z","props":{"ns2:p":1},"refs":{}}]`, foreign)
+				if code, body, pn := w.request(http.MethodPost, "/datasets/"+ds+"/entities", doc2); code != 200 || pn != "" {
+					fail("C13:http-foreign-prefix-rejected", fmt.Sprintf("POST of a document that binds ns2 to %s answered %d %s %s", foreign, code, short(string(body)), pn))
+				} else {
+					ents, err := w.feed(ds)
+					found := false
+					if err == nil {
+						for _, e := range ents {
+							if e.ID == foreign+"z" {
+								found = true
+							}
+						}
+					}
+					if !found {
+						var ids []string
+						for _, e := range ents {
+							ids = append(ids, e.ID)
+						}
+						fail("C13:http-foreign-prefix-not-round-tripped", fmt.Sprintf("a document binding ns2 to %s posted ns2:z; the dataset holds %v, not %sz (err %v)", foreign, ids, foreign, err))
+					}
+				}
+			}
 			label := fmt.Sprintf("%v publicNamespaces=%v", sq, pub)
 			for ri, rd := range sq {
 				res.Reads++
